@@ -14,7 +14,19 @@ HeapMsgs == << Msg(1, ChainAll), Msg(2, << Rep("SA"), Rep("KE"), Rep("NONCE") >>
                Msg(3, << [k |-> "EAP", eap |-> [code |-> 2, id |-> 8, m |-> "expanded", vid |-> 10415, vtype |-> << 0, 0, 0, 3 >>, data |-> D(9, 73)]],
                          [k |-> "EAP", eap |-> [code |-> 1, id |-> 8, m |-> "identity", data |-> D(3, 74)]],
                          [k |-> "EAP", eap |-> [code |-> 2, id |-> 8, m |-> "nak", data |-> D(2, 75)]],
-                         [k |-> "EAP", eap |-> [code |-> 1, id |-> 8, m |-> "notification", data |-> D(5, 76)]] >>) >>
+                         [k |-> "EAP", eap |-> [code |-> 1, id |-> 8, m |-> "notification", data |-> D(5, 76)]] >>),
+               \* lists in which elements REPEAT (an encoder that tidies a list up must do so on a copy), values with zero octets at the edges
+               Msg(2, << [k |-> "D", proto |-> 3, spisz |-> 4, num |-> 3, spis |-> << D(4, 1), D(4, 1), D(4, 2) >>],
+                         [k |-> "D", proto |-> 2, spisz |-> 4, num |-> 5, spis |-> << D(4, 3), D(4, 4), D(4, 3), D(4, 3), D(4, 5) >>],
+                         [k |-> "TSr", sel |-> << Sel6(17, 1, 2, 34), Sel6(17, 1, 2, 34), Sel4(6, 256, 1, 33), Sel6(17, 1, 2, 34) >>],
+                         [k |-> "TSi", sel |-> << Sel4(6, 256, 1, 33), Sel4(6, 256, 1, 33), Sel6(255, 65535, 0, 35) >>] >>),
+               Msg(4, << [k |-> "SA", props |-> << Prop(1, 1, 8, << TrTV(1, 12, 14, 256), TrTV(1, 12, 14, 256), TrTV(1, 12, 14, 128), TrNone(2, 5), TrNone(2, 5), TrNone(2, 2), TrNone(3, 2), TrNone(4, 14), TrNone(4, 14) >>),
+                                                   Prop(1, 1, 8, << TrTV(1, 12, 14, 256), TrNone(2, 5), TrNone(3, 2), TrNone(4, 14) >>) >>],
+                         [k |-> "CP", cft |-> 1, attrs |-> << CA(8, << >>), CA(3, D(4, 6)), CA(3, D(4, 6)), CA(8, << >>), CA(3, D(4, 7)) >>],
+                         Rep("N"), Rep("N"), Rep("CERTREQ"), Rep("CERTREQ") >>),
+               Msg(6, << [k |-> "IDi", idt |-> 2, data |-> Edge("trail0", 9, 1)], [k |-> "NONCE", data |-> Edge("lead00", 16, 2)], [k |-> "V", data |-> Edge("zeros", 8, 3)],
+                         [k |-> "EAP", eap |-> [code |-> 2, id |-> 128, m |-> "identity", data |-> Edge("trail00", 9, 4)]],
+                         [k |-> "TSi", sel |-> << SelA(8, Zeros(10) \o << 255, 255, 10, 0, 0, 1 >>, Zeros(10) \o << 255, 255, 10, 0, 0, 9 >>), SelA(7, Zeros(4), Const(4, 255)) >>] >>) >>
 
 Code(o) == CASE o = "decode" -> 1 [] o = "unprotect" -> 2 [] o = "scribble_in" -> 3 [] o = "encode" -> 4 [] o = "scribble_out" -> 5 [] o = "protect" -> 6 [] o = "encode_dec" -> 8 [] OTHER -> 7
 RECURSIVE Hash(_)
